@@ -2,8 +2,8 @@
 EXTENDS Integers, Sequences, FiniteSets, TLC, TLCExt, Json, CSV, IOUtils, SequencesExt
 CONSTANTS Emit
 E == INSTANCE Env
-VARIABLES kind, pat, fid, cols, lhs, cform
-vars == <<kind, pat, fid, cols, lhs, cform>>
+VARIABLES kind, pat, fid, cols, lhs, cform, cap
+vars == <<kind, pat, fid, cols, lhs, cform, cap>>
 Form == E!Formulas[fid]
 Laws == kind = "resolve" => E!Sufficient(pat, Form) /\ E!Necessary(pat, Form)
 DotLaw == kind = "dot" => LET d == E!DotExpand(cols, lhs) IN
@@ -13,7 +13,10 @@ DotLaw == kind = "dot" => LET d == E!DotExpand(cols, lhs) IN
 Order3 == <<"x", "z", "I", "q">>
 Out == IOEnv.OUT_FILE
 EmitCase == Emit =>
-  IF kind = "resolve"
+  IF kind = "capture"
+  THEN CSVWrite("%1$s", <<ToJson([kind |-> kind, stack |-> cap.stack, k |-> cap.k, inglobals |-> cap.g, indata |-> cap.d,
+          layer |-> E!CaptureLayer(cap.stack, cap.k, cap.g, cap.d), value |-> E!CaptureValue(cap.stack, cap.k, cap.g, cap.d)])>>, Out)
+  ELSE IF kind = "resolve"
   THEN CSVWrite("%1$s", <<ToJson([kind |-> kind, data |-> SelectSeq(Order3, LAMBDA n : n \in pat.data), context |-> SelectSeq(Order3, LAMBDA n : n \in pat.context),
           formula |-> E!FormulaText[fid], ok |-> E!Succeeds(pat, Form), required_before |-> SetToSeq(E!RequiredBefore(Form)),
           columns |-> IF E!Succeeds(pat, Form) THEN E!Columns(pat, Form) ELSE <<>>,
@@ -23,9 +26,16 @@ EmitCase == Emit =>
   ELSE CSVWrite("%1$s", <<ToJson([kind |-> kind, cols |-> cols, lhs |-> SetToSeq(lhs), dot |-> E!DotExpand(cols, lhs)])>>, Out)
 \* "c 3" needs quoting in a formula
 Perms4 == {p \in [1..4 -> {"c1", "c2", "c 3", "y"}] : \A i, j \in 1..4 : i # j => p[i] # p[j]}
-Init == \/ /\ kind = "resolve" /\ pat \in [data : SUBSET E!Names, context : SUBSET E!Names] /\ fid \in DOMAIN E!Formulas /\ cols = <<>> /\ lhs = {}
-              /\ cform \in (IF pat.context = {} THEN {"dict"} ELSE {"dict", "lm", "lm-named"})
-        \/ /\ kind = "dot" /\ pat = [data |-> {}, context |-> {}] /\ fid = 1 /\ cols \in Perms4 /\ lhs \in {{"y"}, {"y", "c2"}, {}, {"c 3"}, {"y", "c 3"}} /\ cform = "dict"
+NoCap == [stack |-> <<>>, k |-> 0, g |-> FALSE, d |-> FALSE]
+\* a frame deeper in the stack never shadows the frame asked for, and the data always wins
+CaptureLaw == kind = "capture" =>
+   /\ (cap.d => E!CaptureLayer(cap.stack, cap.k, cap.g, cap.d) = "data")
+   /\ \A s2 \in [1..3 -> BOOLEAN] : s2[cap.k + 1] = cap.stack[cap.k + 1] => E!CaptureValue(s2, cap.k, cap.g, cap.d) = E!CaptureValue(cap.stack, cap.k, cap.g, cap.d)
+Init == \/ /\ kind = "capture" /\ pat = [data |-> {}, context |-> {}] /\ fid = 1 /\ cols = <<>> /\ lhs = {} /\ cform = "dict"
+           /\ cap \in [stack : [1..3 -> BOOLEAN], k : 0..2, g : BOOLEAN, d : BOOLEAN]
+        \/ /\ kind = "resolve" /\ pat \in [data : SUBSET E!Names, context : SUBSET E!Names] /\ fid \in DOMAIN E!Formulas /\ cols = <<>> /\ lhs = {}
+              /\ cform \in (IF pat.context = {} THEN {"dict"} ELSE {"dict", "lm", "lm-named"}) /\ cap = NoCap
+        \/ /\ kind = "dot" /\ pat = [data |-> {}, context |-> {}] /\ fid = 1 /\ cols \in Perms4 /\ lhs \in {{"y"}, {"y", "c2"}, {}, {"c 3"}, {"y", "c 3"}} /\ cform = "dict" /\ cap = NoCap
 Next == UNCHANGED vars
 Spec == Init /\ [][Next]_vars
 =============================================================================
